@@ -26,7 +26,8 @@ code, running on the page store.  This development relates the two.
   `evalDelete_refines_specV`, `evalUpdate_refines_specV`: the relation `AbsV` is preserved along the
   spec's statements, so statements chain.
 * below: **non-vacuity** on a concrete store with a one-column table `t (a INT)`: the hypotheses hold
-  and INSERT of two rows, UPDATE … WHERE a = 5 and DELETE … WHERE a = 6 run as the spec says.
+  and INSERT of two rows, UPDATE … WHERE a = 5 and DELETE … WHERE a = 6 run as the spec says;
+  `INSERT INTO t (b) VALUES (1)` is refused with nothing changed (`unknown_column_example`).
 -/
 set_option autoImplicit false
 namespace Mkdb.Store
@@ -101,7 +102,7 @@ def sdbA0 : Spec.SDB := [⟨tname, schemaA, []⟩]
 
 /-- **Non-vacuity of `Abs`.** -/
 theorem abs1 : Abs st1 pt0 sch1 [(tname, t0)] sdbA0 :=
-  ⟨cat1, .cons ⟨schemaA, sch1_t, (by intro c hc; cases hc), rfl⟩ .nil⟩
+  ⟨cat1, .cons ⟨schemaA, sch1_t, (by simp [schemaA]), (by intro c hc; cases hc), rfl⟩ .nil⟩
 
 /-! ### the statements -/
 
@@ -118,6 +119,8 @@ theorem a_bytes : "a".toUTF8.toList = [97] := by
   rw [hs]
   decide
 
+theorem nameStr_a : Spec.nameStr [97] = "a" := by decide
+
 theorem fieldsA (n : Bytes) (rows : List Spec.SRow) : Spec.fieldsOfTable ⟨n, schemaA, rows⟩ = [⟨[], [97]⟩] := by
   simp only [Spec.fieldsOfTable, schemaA, List.map_cons, List.map_nil, a_bytes]
 
@@ -131,7 +134,7 @@ theorem specA2 : Spec.specUpdate sdbA1 tname [([97], .lit (.int 7))] (some (cond
     simp only [Spec.selects, fieldsA]
     rfl
   have hf : Spec.findTable sdbA1 tname = some ⟨tname, schemaA, [⟨none, [.int 5]⟩, ⟨none, [.int 6]⟩]⟩ := rfl
-  rw [specUpdate_eq, hf, Option.bind_some, if_neg (by decide), hsel]
+  rw [specUpdate_eq, hf, Option.bind_some, if_neg (by decide), if_neg (by decide), hsel]
   rfl
 
 theorem selA3 : Spec.selects ⟨tname, schemaA, [⟨none, [.int 7]⟩, ⟨none, [.int 6]⟩]⟩ (some (condEq 6)) =
@@ -203,6 +206,12 @@ theorem chain_example :
       simp only [Sql.VExpr.lit.injEq] at hl
       subst hl
       exact ⟨by decide, by decide⟩)
+    (by
+      intro p hp
+      simp only [List.mem_singleton] at hp
+      subst hp
+      rw [nameStr_a]
+      exact a_bytes)
     specA2
   obtain ⟨n, db3, t3', logs3, e3, _, _, habs3, hlk3, hn⟩ := evalDelete_refines_specV db2 pt1 sch1 _ sdbA2 sdbA3 habs2
     tname (some (condEq 6)) specA3
@@ -217,7 +226,23 @@ theorem refused_example :
     ∃ e db', Engine.evalInsert dbA tname [] [[.int 5, .int 6]] = .err (.store e) db' ∧
       db'.wal = dbA.wal ∧ Abs db'.store pt0 sch1 [(tname, t0)] sdbA0 := by
   obtain ⟨h1, e, db', he, _, hw, habs⟩ := evalInsert_refused_spec dbA pt0 sch1 [(tname, t0)] sdbA0 abs1 tname []
-    [.int 5, .int 6] [] (.inr ⟨⟨tname, schemaA, []⟩, rfl, rfl⟩)
+    [.int 5, .int 6] [] (.inr ⟨⟨tname, schemaA, []⟩, rfl, .inl rfl⟩)
   exact ⟨h1, e, db', he, hw, habs⟩
+
+/-- **Non-vacuity of the refusal of an unknown column.**  `INSERT INTO t (b) VALUES (1)` - the table
+`t (a INT)` has no column `b` - is refused by the spec and by the model (`fieldNotFound`); pages, header
+and log are as before and the store abstracts to the same spec database.  (Before the repair the row
+`(NULL)` went in and the value `1` was dropped in silence.) -/
+theorem unknown_column_example :
+    Spec.specInsert sdbA0 tname [[98]] [[.int 1]] = none ∧
+    ∃ db', Engine.evalInsert dbA tname [[98]] [[.int 1]] = .err (.store .fieldNotFound) db' ∧
+      db'.wal = dbA.wal ∧ Same dbA.store db'.store ∧ Abs db'.store pt0 sch1 [(tname, t0)] sdbA0 := by
+  have hcc : checkColumns schemaA (colsOf schemaA ([[98]].map Engine.bytesToName)) = some .fieldNotFound := by
+    decide
+  obtain ⟨s', he, hs', hc'⟩ := insert_names_refused_cat cat1 tname t0 (List.mem_singleton.mpr rfl) schemaA sch1_t
+    ([[98]].map Engine.bytesToName) [.int 1] .fieldNotFound (by decide) hcc
+  refine ⟨?_, { dbA with store := s' }, ?_, rfl, hs', ⟨hc', abs1.tabs⟩⟩
+  · exact specInsert_none_of_bad_names sdbA0 tname [[98]] [.int 1] [] ⟨tname, schemaA, []⟩ rfl (by decide)
+  · exact evalInsert_go_err dbA tname [[98]] [.int 1] [] dbA.store s' [] 0 _ he
 
 end Mkdb.Store
